@@ -326,7 +326,7 @@ def compute_feats_from_kaldi_tables(args: Optional[Sequence[str]] = None) -> Non
             logger.warn(
                 "Sample frequency mismatch for file {}: you specified {:.2f} "
                 "but data has {:.2f}: producing no output"
-                "".format(utt_id, computer.bank.sample_rate_hz, samp_freq)
+                "".format(utt_id, computer.bank.sampling_rate, samp_freq)
             )
             continue
         cur_chan = options.channel
